@@ -1,7 +1,12 @@
 #!/usr/bin/env python3
 """Generates the C20 schema family: harness/vh/src/bin/c20_profiles.inc (macro invocations) and schemas/c20.json
 (mirror with hints) from ONE table, so that the compiled annotations and the TLA+ constant cannot diverge (the harness
-additionally compares the mirror with the live registry at start-up).  Hints of profiles P2.. are drawn with a fixed seed."""
+additionally compares the structure of the mirror with the live registry at start-up and reports hints that the registry
+holds differently -- those are not tool errors: the registry is built by the code under test).
+Hints of profiles P2.. are drawn with a fixed seed.
+MergedObject: M12 = MergedObject(MP, MQ), M21 = MergedObject(MQ, MP), and the Query root itself is a MergedObject of
+QueryCore and QueryExtra (order per profile).  The mirror lists the members' object-level hints in `merged`; the spec
+takes Merge of them as the object-level hint of the merged type."""
 import json, random
 
 DOMAIN = [(pub, age) for pub in (True, False) for age in (-1, 0, 1, 2, 60)]
@@ -14,6 +19,12 @@ SLOTS = [("Query", None), ("Query", "a"), ("Query", "b"), ("Query", "c"), ("Quer
          ("A", None), ("A", "tag"), ("A", "x"), ("A", "peer"), ("A", "buddy"),
          ("B", None), ("B", "tag"), ("B", "z"),
          ("C", None), ("C", "tag"), ("C", "v")]
+# slots of the MergedObject members (appended macro parameters)
+MSLOTS = [("QueryExtra", None), ("QueryExtra", "m12"), ("QueryExtra", "m21"), ("QueryExtra", "extra"),
+          ("MP", None), ("MP", "mp1"), ("MP", "mp2"), ("MQ", None), ("MQ", "mq1")]
+MFIELDS = {"QueryExtra": {"m12": N("M12"), "m21": N("M21"), "extra": NN(N("Int"))},
+           "MP": {"mp1": NN(N("Int")), "mp2": NN(N("Int"))}, "MQ": {"mq1": NN(N("Int"))}}
+ROOT_ORDER = {"P1": ["QueryCore", "QueryExtra"], "P2": ["QueryExtra", "QueryCore"], "P3": ["QueryCore", "QueryExtra"]}
 FIELDS = {
  "Query": {"a": N("A"), "b": N("B"), "c": N("C"), "node": N("Node"), "nodes": NN(L(NN(N("Node")))), "u": N("U"), "us": NN(L(NN(N("U")))), "n": NN(N("Int"))},
  "A": {"id": NN(N("ID")), "tag": NN(N("Int")), "x": NN(N("Int")), "peer": N("Node"), "buddy": N("B")},
@@ -32,7 +43,16 @@ def attr(p):
 
 def hint(p): return {"public": p[0], "maxAge": p[1]}
 
-def family_ts(assign):
+def merge(ps):
+    pub, age = True, 0
+    for p, a in ps:
+        pub = pub and p
+        age = -1 if (age == -1 or a == -1) else (a if age == 0 else (age if a == 0 else min(age, a)))
+    return (pub, age)
+
+def F(ty, h): return {"ty": ty, "outer": False, "guard": False, "gen": True, "hint": hint(h)}
+
+def family_ts(assign, name="P1"):
     types = {}
     for t, fs in FIELDS.items():
         kind = "INTERFACE" if t == "Node" else "OBJECT"
@@ -40,14 +60,30 @@ def family_ts(assign):
         for f, ty in fs.items():
             fields[f] = {"ty": ty, "outer": False, "guard": False, "gen": True, "hint": hint(assign.get((t, f), DEFAULT))}
         types[t] = {"kind": kind, "fields": fields, "implements": (["Node"] if t in ("A", "B", "C") else []), "members": [], "values": [],
-                    "hint": hint(assign.get((t, None), DEFAULT))}
-    types["U"] = {"kind": "UNION", "fields": {}, "implements": [], "members": ["A", "B", "C"], "values": [], "hint": hint(DEFAULT)}
-    return {"types": types, "query": "Query", "mutation": "", "subscription": "", "objects": {"root": "Query", "a1": "A", "a2": "A", "b1": "B", "c1": "C"}}
+                    "hint": hint(assign.get((t, None), DEFAULT)), "merged": []}
+    types["U"] = {"kind": "UNION", "fields": {}, "implements": [], "members": ["A", "B", "C"], "values": [], "hint": hint(DEFAULT), "merged": []}
+    # MergedObject types: fields of all members, `merged` = the members' object-level hints in declaration order
+    g = lambda t, f=None: assign.get((t, f), DEFAULT)
+    mfields = lambda members: {f: F(ty, g(m, f)) for m in members for f, ty in MFIELDS[m].items()}
+    for tname, members in (("M12", ["MP", "MQ"]), ("M21", ["MQ", "MP"])):
+        types[tname] = {"kind": "OBJECT", "fields": mfields(members), "implements": [], "members": [], "values": [],
+                        "hint": hint(merge([g(m) for m in members])), "merged": [hint(g(m)) for m in members]}
+    core = ("Query", None)
+    order = ROOT_ORDER[name]
+    root_members = [g("Query") if m == "QueryCore" else g("QueryExtra") for m in order]
+    types["Query"]["fields"].update(mfields(["QueryExtra"]))
+    types["Query"]["hint"] = hint(merge(root_members))
+    types["Query"]["merged"] = [hint(h) for h in root_members]
+    return {"types": types, "query": "Query", "mutation": "", "subscription": "",
+            "objects": {"root": "Query", "a1": "A", "a2": "A", "b1": "B", "c1": "C", "m1": "M12", "m2": "M21"}}
 
 profiles = {}
 # P1: hand-made: long-lived public root data, a private object (B), a no-cache object (C), a short-lived field
 profiles["P1"] = {("Query", None): (True, 120), ("Query", "n"): (True, 60), ("A", None): (True, 30), ("A", "x"): (True, 10), ("A", "tag"): (True, 20),
-                  ("B", None): (False, 0), ("B", "z"): (True, 5), ("B", "tag"): (False, 40), ("C", None): (True, -1), ("C", "tag"): (True, 7), ("Query", "a"): (True, 90)}
+                  ("B", None): (False, 0), ("B", "z"): (True, 5), ("B", "tag"): (False, 40), ("C", None): (True, -1), ("C", "tag"): (True, 7), ("Query", "a"): (True, 90),
+                  # merged members: the later member of M12 (MQ) is private and shorter-lived, the later root member is shorter-lived
+                  ("QueryExtra", None): (True, 45), ("QueryExtra", "extra"): (True, 100), ("MP", None): (True, 50), ("MP", "mp1"): (True, 70),
+                  ("MQ", None): (False, 20), ("MQ", "mq1"): (True, 80)}
 rng = random.Random(20260922)
 more = [(True, 5), (True, 10), (True, 30), (False, 30), (True, 300)]
 for name in ("P2", "P3"):
@@ -56,13 +92,20 @@ for name in ("P2", "P3"):
         if rng.random() < 0.6:
             a[s] = rng.choice(DOMAIN + more)
     profiles[name] = a
+rng2 = random.Random(20260923)      # the MergedObject slots are drawn separately so that the older slots keep their hints
+for name in ("P2", "P3"):
+    for sl in MSLOTS:
+        if sl[1] is None or rng2.random() < 0.5:
+            profiles[name][sl] = rng2.choice(DOMAIN + more)
+    while profiles[name][("MP", None)] == profiles[name][("MQ", None)]:
+        profiles[name][("MQ", None)] = rng2.choice(DOMAIN + more)
 
-out = {"_doc": "Mirror of the C20 schema family (generated by checks/C20_genfam.py together with harness/vh/src/bin/c20_profiles.inc; the harness compares it with the live registry incl. every cache hint at start-up). hint = [public, maxAge] of the object type / field; -1 = no-cache, 0 = unset.",
+out = {"_doc": "Mirror of the C20 schema family (generated by checks/C20_genfam.py together with harness/vh/src/bin/c20_profiles.inc; the harness compares its structure with the live registry at start-up and reports differing hints). hint = [public, maxAge] of the object type / field; -1 = no-cache, 0 = unset. merged = object-level hints of the members of a MergedObject type in declaration order (the spec takes their Merge).",
        "domain": [hint(p) for p in DOMAIN], "profiles": {}}
 inc = ["// generated by /verif/checks/C20_genfam.py -- do not edit by hand\n"]
 for name, a in profiles.items():
-    out["profiles"][name] = family_ts(a)
-    inc.append("family!(%s; %s);\n" % (name.lower(), "; ".join("[%s]" % attr(a.get(s, DEFAULT)) for s in SLOTS)))
+    out["profiles"][name] = family_ts(a, name)
+    inc.append("family!(%s; %s; [%s]);\n" % (name.lower(), "; ".join("[%s]" % attr(a.get(s, DEFAULT)) for s in SLOTS + MSLOTS), ", ".join(ROOT_ORDER[name])))
 # the law profile: one leaf field per policy of the domain on a plain Query
 lf = {}
 law_fields = []
@@ -70,7 +113,7 @@ for (pub, age) in DOMAIN:
     fname = "%s%s" % ("p" if pub else "q", "n" if age == -1 else str(age))     # p60 = public 60, qn = private no-cache
     lf[fname] = {"ty": NN(N("Int")), "outer": False, "guard": False, "gen": True, "hint": hint((pub, age))}
     law_fields.append((fname, attr((pub, age))))
-out["profiles"]["L"] = {"types": {"Query": {"kind": "OBJECT", "fields": lf, "implements": [], "members": [], "values": [], "hint": hint(DEFAULT)}},
+out["profiles"]["L"] = {"types": {"Query": {"kind": "OBJECT", "fields": lf, "implements": [], "members": [], "values": [], "hint": hint(DEFAULT), "merged": []}},
                         "query": "Query", "mutation": "", "subscription": "", "objects": {"root": "Query"}}
 inc.append("laws!(%s);\n" % ", ".join("%s [%s]" % (f, a) for f, a in law_fields))
 json.dump(out, open("/verif/schemas/c20.json", "w"), indent=1)
